@@ -5,6 +5,7 @@
 use crate::visitor::{
     csi_methods::CsiMethods,
     ident_provider::{IdentKind, IdentProvider},
+    visitor_util::get_dd_paren_span,
 };
 use swc::atoms::JsWord;
 use swc_common::{util::take::Take, Spanned, SyntaxContext, DUMMY_SP};
@@ -317,7 +318,7 @@ impl OptChainTransform {
         visitor.assignments.push(Expr::Cond(cond));
 
         let expr = Expr::Paren(ParenExpr {
-            span,
+            span: get_dd_paren_span(&span),
             expr: Box::new(Expr::Seq(SeqExpr {
                 span,
                 exprs: visitor
